@@ -340,12 +340,16 @@ def Data.hasRows : Data → Bool
   | .rows _ _ _ => true
   | _ => false
 
+/-- `get_recursively(context, "output.to_csv", True)` is true -/
+def csvAllowed (d : Dict) : Bool :=
+  match getRec d ["output", "to_csv"] with
+  | some x => x.truthy
+  | none => true
+
 /-- the values `ToCSV` converts: the context does not forbid it, and the data is a histogram of
 dimension 1 or 2 or has a method `rows()` -/
 def toCSVSel (v : Item) : Bool :=
-  (match getRec v.dict ["output", "to_csv"] with
-   | some x => x.truthy
-   | none => true)
+  csvAllowed v.dict
   && (match v.data with
       | .hist h => h.dim == 1 || h.dim == 2
       | d => d.hasRows)
@@ -354,9 +358,7 @@ def toCSVSel (v : Item) : Bool :=
 def toCSVStep {σ : Type} (s : σ) (v : Item) : Step σ Item :=
   let c := v.ctxOr 0
   -- `if not get_recursively(context, "output.to_csv", True): yield val; continue`
-  if !(match getRec c.d ["output", "to_csv"] with
-       | some x => x.truthy
-       | none => true) then pass s v
+  if !csvAllowed c.d then pass s v
   else
     match v.data with
     | .hist h =>
@@ -584,20 +586,19 @@ def pngStep (cfg : PngCfg) (fs : FS) (v : Item) : Step FS Item :=
 
 /-! ## `HistToGraph.run` (elements.py:65-116) -/
 
+/-- `get_recursively(context, "histogram.to_graph", True)` is true -/
+def graphAllowed (d : Dict) : Bool :=
+  match getRec d ["histogram", "to_graph"] with
+  | some x => x.truthy
+  | none => true
+
 /-- histograms whose context does not set `histogram.to_graph` to a false value -/
-def histToGraphSel (v : Item) : Bool :=
-  v.data.isHist &&
-  (match getRec v.dict ["histogram", "to_graph"] with
-   | some x => x.truthy
-   | none => true)
+def histToGraphSel (v : Item) : Bool := v.data.isHist && graphAllowed v.dict
 
 /-- the loop body of `HistToGraph.run` -/
 def histToGraphStep {σ : Type} (s : σ) (v : Item) : Step σ Item :=
   let c := v.ctxOr 0
-  if !v.data.isHist ||
-     !(match getRec c.d ["histogram", "to_graph"] with
-       | some x => x.truthy
-       | none => true) then pass s v
+  if !v.data.isHist || !graphAllowed c.d then pass s v
   else
     -- `update_nested("value", context, bin_context)`
     ⟨[mk v 0 (.graph v.tok) ⟨c.tok, setKey c.d "value" (.opaque "value")⟩], s, none⟩
